@@ -142,6 +142,16 @@ theorem format_unique_shortest (s : Bytes) (m : Nat) (h : Spec.Amount.parse s = 
     s = Spec.Amount.format m :=
   Spec.Amount.format_unique_shortest h hd hl
 
+-- hypotheses of `format_unique_shortest` are met by "1.5" / 150000000 (and the conclusion is then "1.5" = format)
+example : Spec.Amount.parse [49, dot, 53] = some 150000000 ∧ (∀ rest, ([49, dot, 53] : Bytes) ≠ dot :: rest) ∧
+    ([49, dot, 53] : Bytes).length ≤ (Spec.Amount.format 150000000).length := by
+  refine ⟨by decide, fun rest h => by injection h with h1 _; exact absurd h1 (by decide), ?_⟩
+  rw [Spec.Amount.format_eq]
+  have e1 : (150000000 : Nat) % 10 ^ 8 = 50000000 := by decide
+  have e2 : (150000000 : Nat) / 10 ^ 8 = 1 := by decide
+  rw [e1, e2, if_neg (by decide), render_lt (by decide)]
+  decide
+
 /-- and in general a spelling can be shorter by at most the one omitted leading `0` -/
 theorem format_shortest_slack (s : Bytes) (m : Nat) (h : Spec.Amount.parse s = some m) :
     (Spec.Amount.format m).length ≤ s.length + 1 :=
@@ -180,6 +190,9 @@ theorem model_rejects (s : Bytes)
   · exact spec_rejects_foreign_byte s b hb h1 h2
   · exact spec_rejects_two_points s h
   · exact spec_rejects_no_digit s h
+
+example : (∃ b ∈ ([45, 49] : Bytes), isDigit b = false ∧ b ≠ dot) ∨ 2 ≤ ([45, 49] : Bytes).count dot ∨
+    (∀ b ∈ ([45, 49] : Bytes), isDigit b = false) := Or.inl ⟨45, by decide, by decide, by decide⟩
 
 /-- an accepted string is `i` or `i.f` (digit strings, at least one digit), its value is within the supply
     and is EXACTLY (the number written) × 10^8:  v · 10^|f| = (integer written i++f) · 10^8 -/
